@@ -633,6 +633,13 @@ def call_external(self, dotted, pos, kw, node, fr):
         self.emit('raise', node, fr, exc=T.mk_call('SystemExit', pos))
         self.pending.append(FALSE)
         return Term.of(Atom('noreturn'))
+    if root == 'numpy' and len(parts) >= 3 and parts[-1] == 'outer' and parts[-2] in ('add', 'subtract', 'multiply') \
+            and len(pos) == 2 and not kw:
+        # np.add.outer(a, b)  ==  np.array([a_i + b for a_i in a])
+        cid = f'C{getattr(node, "lineno", 0)}:{getattr(node, "col_offset", 0)}:0'
+        tv, _ = self._loop_target(pos[0], cid)
+        elt = {'add': tv + pos[1], 'subtract': tv - pos[1], 'multiply': tv * pos[1]}[parts[-2]]
+        return self.numpy_call('array', [Term.of(Atom('comp', 'list', elt, (T.mk_tuple([pos[0]]),), cid.rsplit(':', 1)[0]))], [])
     if root in ('numpy', 'scipy'):
         T.MODELLED.add(T.SYN.get(last, last))     # library functions have fixed semantics: distinct names, distinct functions
         outs = [k for k in getattr(node, 'keywords', []) if k.arg == 'out']
@@ -811,12 +818,12 @@ def call_builtin(self, name, pos, kw, node, fr):
             finally:
                 self.record = rec
             if name == 'filter':
-                return Term.of(Atom('comp', 'list', tv, (T.mk_tuple([pos[1], v]),)))
-            return Term.of(Atom('comp', 'list', v, (T.mk_tuple([pos[1]]),)))
+                return Term.of(Atom('comp', 'list', tv, (T.mk_tuple([pos[1], v]),), cid.rsplit(':', 1)[0]))
+            return Term.of(Atom('comp', 'list', v, (T.mk_tuple([pos[1]]),), cid.rsplit(':', 1)[0]))
     if name == 'list' and len(pos) == 1 and not kw:
         xa = pos[0].single_atom()
         if xa is not None and xa.kind == 'comp' and xa.args[0] in ('list', 'gen'):
-            return Term.of(Atom('comp', 'list', xa.args[1], xa.args[2]))
+            return Term.of(Atom('comp', 'list', xa.args[1], xa.args[2], *xa.args[3:]))
     if name in ('dict', 'list', 'tuple') and len(pos) == 1 and not kw:
         xa = pos[0].single_atom()
         if xa is not None and xa.kind in ('dict', 'list', 'tuple') and name in ('dict', 'list', 'tuple'):
